@@ -187,6 +187,7 @@ const (
 	vfDrop
 	vfDup
 	vfHold
+	vfDupHold // deliver now and hold a second copy (a delayed re-delivery)
 )
 
 type vfBrokerProxy struct {
@@ -203,6 +204,8 @@ type vfBrokerProxy struct {
 	// A non-nil error returned in phase "before" is returned to the caller without calling the inner broker.
 	Hook func(op, phase, ch string) error
 	Log  []string // "subscribe ch" / "unsubscribe ch" in call order (successful calls only)
+	// OnDeliver, when set, is called right before a delivery is handed to the node's BrokerEventHandler.
+	OnDeliver func(d vfDelivery)
 }
 
 var _ Broker = (*vfBrokerProxy)(nil)
@@ -315,6 +318,12 @@ func (b *vfBrokerProxy) RemoveHistory(ch string) error {
 }
 
 func (b *vfBrokerProxy) deliver(d vfDelivery) error {
+	b.mu.Lock()
+	od := b.OnDeliver
+	b.mu.Unlock()
+	if od != nil {
+		od(d)
+	}
 	switch d.Kind {
 	case "pub":
 		return b.h.HandlePublication(d.Ch, d.Pub, d.SP, d.UseDelta, d.PrevPub)
@@ -344,6 +353,10 @@ func (b *vfBrokerProxy) route(d vfDelivery) error {
 		b.held = append(b.held, d)
 		b.mu.Unlock()
 		return nil
+	case vfDupHold:
+		b.mu.Lock()
+		b.held = append(b.held, d)
+		b.mu.Unlock()
 	}
 	return b.deliver(d)
 }
@@ -535,6 +548,7 @@ type vfConnCfg struct {
 	User         string
 	Proto        ProtocolType // default JSON
 	Uni          bool
+	Emulation    bool // bidirectional emulation transport: the connection gets a session id
 	DisabledPush uint64
 	PingPong     PingPongConfig // zero → pings disabled (-1) to keep frames deterministic unless a check wants them
 	KeepPing     bool           // when true PingPong is passed through unchanged
@@ -559,7 +573,7 @@ func (w *vfWorld) NewConn(cc vfConnCfg) *vfConn {
 	if !cc.KeepPing {
 		pp = PingPongConfig{PingInterval: -1, PongTimeout: -1}
 	}
-	t := &vfTransport{w: w, name: cc.Name, proto: cc.Proto, uni: cc.Uni, disabledPush: cc.DisabledPush,
+	t := &vfTransport{w: w, name: cc.Name, proto: cc.Proto, uni: cc.Uni, emulation: cc.Emulation, disabledPush: cc.DisabledPush,
 		pingPong: pp, closeCh: make(chan struct{})}
 	ctx, cancel := context.WithCancel(context.Background())
 	client, closeF, err := NewClient(ctx, w.node, t)
